@@ -27,8 +27,9 @@ package core
 //     group the manager holds the pod in; spec.nodeName is set once and never changes;
 //     reserve/unreserve concern pods whose last delivered version has no node name (a bound pod
 //     is not in a scheduling cycle); a duplicate add carries the last delivered version;
-//   - MigratePod is called the way its only callers call it (plugin_helper.go): with the pod
-//     object taken from the source group's own pod cache.
+//   - MigratePod is called the way its only production caller calls it (plugin_helper.go,
+//     migrateDefaultQuotaGroupsPod): for a pod held by the default group, with the pod object taken
+//     from that group's own pod cache, into an existing non-parent group.
 //
 // Choices the statement leaves open, taken from the code's documented behaviour:
 //
@@ -610,7 +611,6 @@ func (e *c01Env) applyQuota(g *c01Group, what string) {
 	e.m.groups[g.name] = g
 	err := e.gqm.UpdateQuota(obj)
 	e.c.Op("UpdateQuota(%s) %s -> err=%v", what, g, err)
-	e.c.Count("op_quota_"+what, 1)
 	if err != nil {
 		e.failf("C01/quota/update-refused", "UpdateQuota(%s) of %s returned %v", what, g, err)
 	}
@@ -739,6 +739,12 @@ func (e *c01Env) check(ctx *c01Ctx) {
 		}
 		a := agg[n]
 		isRoot := n == extension.RootQuotaName
+		if a.req != a.childReq {
+			c.Count("expected_request_raised_to_min", 1)
+		}
+		if m.limited(agg, n) {
+			c.Count("expected_request_above_max", 1)
+		}
 		for _, f := range c01Fields {
 			if isRoot && !f.root {
 				continue
@@ -772,16 +778,30 @@ func (e *c01Env) check(ctx *c01Ctx) {
 			continue
 		}
 		// which pods are counted, and whether they count as used
-		want := map[string]bool{}
+		want := map[string]*c01Pod{}
 		for _, p := range m.pods {
 			if p.inMgr && p.group == n {
-				want[p.key()] = p.asg
+				want[p.key()] = p
 			}
 		}
-		for k, asg := range want {
+		for k, p := range want {
+			asg := p.asg
 			pi, ok := s.PodCache[k]
 			if !ok {
 				c.Fail("C01/podcache/missing", "%s: group %s does not hold pod %s", where, n, k)
+			}
+			// the per-pod amount shown in the summary is the one of the add event; the statement is about
+			// the group figures, so a stale per-pod amount is only counted
+			for d := 0; d < m.nd; d++ {
+				q := pi.Resource[c01DimNames[d]]
+				if w := c01Q(d, p.req[d]); q.Cmp(w) != 0 {
+					c.Count("podcache_resource_stale", 1)
+					break
+				}
+			}
+			c.Count("podcache_pod_checks", 1)
+			if asg {
+				c.Count("podcache_pod_checks_assigned", 1)
 			}
 			if pi.IsAssigned != asg {
 				c.Fail("C01/podcache/assigned", "%s: group %s pod %s isAssigned=%v, expected %v", where, n, k, pi.IsAssigned, asg)
